@@ -257,7 +257,54 @@ func runC17(c *Ctx) {
 			c.Unk("C17.G6-expansion-delivered-whole", fa.Name, fa.SSA.Pos(), "no send of the elements of GetResults' result found")
 		}
 	}
-	c.Floor("C17.G6-expansion-delivered-whole", 1)
+	// … and the synchronous wrapper collects every result it receives: the append of the received value is not
+	// under a condition of its own inside the receive loop
+	if fs := c.Func("find/client", "DHashClient.Find"); fs != nil {
+		nApp := 0
+		for _, cs := range c.Calls(fs.SSA, Op("builtin", "append")) {
+			if cs.Fn != fs.SSA {
+				continue
+			}
+			elems := variadicElems(c, cs.X.Args[1])
+			if len(elems) != 1 {
+				continue
+			}
+			recvd := elems[0].Find(func(y *X) bool { return y.Op == "recv" || y.Op == "next" || y.Op == "range" }) != nil
+			if !recvd {
+				if _, isNext := strip(elems[0]).V.(*ssa.Extract); !isNext {
+					continue
+				}
+			}
+			ab := cs.In.Block()
+			var head *ssa.BasicBlock
+			for d := ab; d != nil && head == nil; d = d.Idom() {
+				for _, p := range d.Preds {
+					if d.Dominates(p) && ReachableFrom(ab)[p] {
+						head = d
+					}
+				}
+			}
+			if head == nil {
+				continue
+			}
+			nApp++
+			filtered := ""
+			for _, fct := range c.FactsAt(ab) {
+				if fct.If == nil {
+					continue
+				}
+				ib := fct.If.Block()
+				if ib != head && head.Dominates(ib) {
+					filtered = abbreviate(factString(fct))
+				}
+			}
+			c.Check(filtered == "", "C17.G6-expansion-delivered-whole", fs.Name+" › collects every received result", cs.In.Pos(), "every result received from the asynchronous lookup is appended, unconditionally", "received results are collected only under a condition of the client's own ("+filtered+"): entries the expansion rules require (an extended provider listed at both levels, the main provider's entry with new metadata) are dropped")
+		}
+		if nApp == 0 {
+			c.Unk("C17.G6-expansion-delivered-whole", fs.Name, fs.SSA.Pos(), "no append of a received result inside a receive loop found")
+		}
+	}
+	c.Floor("C17.G6-expansion-delivered-whole", 2)
 
 	// ---- G3 ordering ----------------------------------------------------------------------------
 	var ctxLoop, chainLoop *epLoop
